@@ -144,7 +144,7 @@ def rule_r2(chk, db, methods):
         p = flow.op_place(sorts[0][1]["args"][1]) if len(sorts[0][1]["args"]) > 1 else None
         df = flow.single_def(b, p["l"]) if p else None
         if df and df["kind"] == "assign" and df["rv"].get("agg") == "closure":
-            clo = db.body(df["rv"]["def"])
+            clo = inline.inlined(db, db.body(df["rv"]["def"]))      # an accessor helper (`object_key(lhs)`) is part of the comparator
         if clo is not None:
             keyf = any(f == ("Object", "key") for bi2, si2, st2 in clo.stmts() for o in st2["rv"]["ops"] if flow.op_place(o) for f in flow.proj_fields(flow.norm_proj(flow.op_place(o)["proj"])))
             cmpc = any(short(callee_def(t)) == "cmp" for _, t in clo.calls())
